@@ -13,6 +13,10 @@ from .codec import hx
 UPS = 1024
 
 
+class Livelock(Exception):
+    """callbacks keep rescheduling themselves although virtual time stands still"""
+
+
 class StepLoop(asyncio.SelectorEventLoop):
     """virtual clock moved only by the harness; `_run_once` never blocks.  The time unit is
     1/1024 s (`UPS` units per second, called "ms" loosely): every clock value and every sum
@@ -54,13 +58,13 @@ class StepLoop(asyncio.SelectorEventLoop):
         if self.has_work():
             super()._run_once()
 
-    def settle(self, limit=100000):
+    def settle(self, limit=20000):
         n = 0
         while self.has_work():
             super()._run_once()
             n += 1
             if n > limit:
-                raise RuntimeError("loop does not settle")
+                raise Livelock("loop does not settle")
         return n
 
     def advance_ms(self, ms):
@@ -406,7 +410,7 @@ class Sim:
         w = p._waiter is not None and not p._waiter.done()
         return (f"r={codes} part={partial} cl={'1' if self.tr.closing or self.tr.lost else '0'} "
                 f"lost={'1' if self.tr.lost else '0'} q={len(p._messages)} pa={'1' if self.tr.paused else '0'} "
-                f"w={'1' if w else '0'} c={len(self.calls)} "
+                f"w={'1' if w else '0'} c={len(self.calls)} f={p._parser._msg_in_flight if p._parser is not None else '-'} "
                 f"x={len(self.loop_excs) + len(self.escaped)}")
 
     def close(self):
